@@ -74,7 +74,7 @@ func sortedKeys(m map[int]bool) []int {
 func RunCase(cs CaseSpec) (traces [][]*Event, obs []interface{}, err error) {
 	rng := rand.New(rand.NewSource(cs.Seed*1000003 + int64(cs.Idx)))
 	tables := randomTables(rng, 5+rng.Intn(5), 5+rng.Intn(4))
-	u, err := prune.BuildUniverse(tables)
+	u, err := prune.BuildUniverse(tables, nil)
 	if err != nil {
 		return nil, nil, err
 	}
